@@ -1,4 +1,5 @@
 import Proofs.Lemmas.Filter
+import Mathlib.MeasureTheory.Measure.Lebesgue.Basic
 /-!
 # C13 — EKF / UKF equal the Kalman filter on linear-Gaussian systems; covariances valid; PF skeleton
 
@@ -9,7 +10,7 @@ Contracts of external kernels appear as hypotheses:
 `hpinv : ∀ S, IsUnit S.det → pinv S = S⁻¹`  (`torch.linalg.pinv` of an invertible matrix is its inverse),
 `hsqrt : ∀ M, M.PosSemidef → msqrt M * (msqrt M)ᵀ = M`  (`UKF.msqrt`, default Cholesky).
 -/
-open Matrix
+open Matrix MeasureTheory
 namespace PP.Filter
 
 variable {n m p : Nat}
@@ -327,6 +328,33 @@ theorem pf_resample_rule (w : Fin N → ℝ) (hw : ∀ i, 0 < w i) (hsum : ∑ i
   · intro hr0
     have := (hle ⟨0, hN⟩).2 (by rw [cumsum_zero w ⟨0, hN⟩ rfl]; exact hr0.trans (hw _).le)
     simpa using this
+
+/-- **Resampling probabilities.** For positive weights summing to one, the set of draws `r ∈ (0,1)` that select
+particle `i` has Lebesgue measure `w i`: a uniform draw picks particle `i` with probability `w i`. -/
+theorem pf_resample_prob (w : Fin N → ℝ) (hw : ∀ i, 0 < w i) (hsum : ∑ i, w i = 1) (hN : 0 < N) (i : Fin N) :
+    volume {r : ℝ | 0 < r ∧ r < 1 ∧ searchsorted (cumsum w) r = i.val} = ENNReal.ofReal (w i) := by
+  have hmono := cumsum_mono w fun i => (hw i).le
+  have hB : cumsum w i ≤ 1 := by
+    have h := hmono (show i ≤ ⟨N - 1, by omega⟩ from Fin.le_def.2 (by have := i.isLt; simp only; omega))
+    rwa [cumsum_last w ⟨N - 1, by omega⟩ (by simp only; omega), hsum] at h
+  have hA : 0 ≤ cumsum w i - w i := by
+    rw [cumsum_eq, sub_nonneg]
+    exact Finset.single_le_sum (f := w) (fun j _ => (hw j).le) (by simp)
+  have rule := fun r (h1 : r < 1) => (pf_resample_rule w hw hsum r h1 hN).2.2.1
+  have h1 : Set.Ioo (cumsum w i - w i) (cumsum w i) ⊆ {r : ℝ | 0 < r ∧ r < 1 ∧ searchsorted (cumsum w) r = i.val} := by
+    intro r hr
+    have hr0 : 0 < r := lt_of_le_of_lt hA hr.1
+    have hr1 : r < 1 := lt_of_lt_of_le hr.2 hB
+    exact ⟨hr0, hr1, (rule r hr1 hr0 i).2 ⟨hr.1, hr.2.le⟩⟩
+  have h2 : {r : ℝ | 0 < r ∧ r < 1 ∧ searchsorted (cumsum w) r = i.val} ⊆ Set.Ioc (cumsum w i - w i) (cumsum w i) := by
+    rintro r ⟨hr0, hr1, hi⟩
+    exact (rule r hr1 hr0 i).1 hi
+  apply le_antisymm
+  · calc _ ≤ volume (Set.Ioc (cumsum w i - w i) (cumsum w i)) := measure_mono h2
+      _ = ENNReal.ofReal (w i) := by rw [Real.volume_Ioc]; congr 1; ring
+  · calc ENNReal.ofReal (w i) = volume (Set.Ioo (cumsum w i - w i) (cumsum w i)) := by
+          rw [Real.volume_Ioo]; congr 1; ring
+      _ ≤ _ := measure_mono h1
 
 /-- **PF output.** The particles entering the moments are propagated prior particles `f(xp (idx j), u)`
 (resampling picks existing particles), the mean is their average, and the covariance
